@@ -266,6 +266,10 @@ impl DepthFirstSearch {
         goal.status = GoalStatus::InProgress;
         goal.depth = depth;
 
+        // Did a candidate rule prove THIS goal? (`self.solutions` is shared with the searches
+        // of sub-goals, so its being non-empty says nothing about this goal)
+        let mut proved_here = false;
+
         // Try each candidate rule
         for rule_name in goal.candidate_rules.clone() {
             self.path.push(rule_name.clone());
@@ -288,12 +292,18 @@ impl DepthFirstSearch {
                             bindings: goal.bindings.to_map(),
                         });
 
-                        // If we only want one solution OR we've found enough, stop searching
-                        if self.max_solutions == 1 || self.solutions.len() >= self.max_solutions {
+                        // If we only want one solution OR we've found enough, stop searching.
+                        // Only the root goal enumerates alternatives: a sub-goal keeps its first
+                        // proof, because its caller goes on to use the facts it derived.
+                        if self.max_solutions == 1
+                            || self.solutions.len() >= self.max_solutions
+                            || depth > 0
+                        {
                             return true; // keep changes
                         }
 
                         // Otherwise (max_solutions > 1 and not enough yet), rollback and continue
+                        proved_here = true;
                         facts.rollback_undo_frame();
                         self.path.pop();
                         continue;
@@ -318,11 +328,13 @@ impl DepthFirstSearch {
                                     // If we only want one solution OR we've found enough, stop searching
                                     if self.max_solutions == 1
                                         || self.solutions.len() >= self.max_solutions
+                                        || depth > 0
                                     {
                                         return true; // keep changes
                                     }
 
                                     // Otherwise, rollback and continue searching
+                                    proved_here = true;
                                     facts.rollback_undo_frame();
                                     self.path.pop();
                                     continue;
@@ -371,10 +383,21 @@ impl DepthFirstSearch {
         }
 
         // If we found at least one solution (even if less than max_solutions), consider it proven
-        if !self.solutions.is_empty() {
+        if proved_here {
             goal.status = GoalStatus::Proven;
             // For negated goals, finding a proof means negation fails
-            return !goal.is_negated;
+            if goal.is_negated {
+                return false;
+            }
+            // The alternatives were explored on facts that were rolled back afterwards:
+            // derive the goal once more and keep the derived facts for the caller
+            let wanted = std::mem::replace(&mut self.max_solutions, 1);
+            let found = std::mem::take(&mut self.solutions);
+            goal.status = GoalStatus::Pending;
+            let proven = self.search_recursive_with_execution(goal, facts, kb, depth);
+            self.max_solutions = wanted;
+            self.solutions = found;
+            return proven;
         }
 
         // If we have no candidate rules and no sub-goals, or nothing worked
